@@ -158,7 +158,48 @@ class DualMonitor:
         return self.p.known_f19 + self.t.known_f19
 
 
+class DeclineMonitor(Monitor):
+    """sys.settrace with a global trace function that declines some scopes (returns None on their 'call' event, by name):
+    a declined activation must get no further events, an accepted one must be balanced as usual, and - checked by the
+    caller - the traced program must behave as it does untraced."""
+
+    def __init__(self, basename, spans, f19_funcs=()):
+        Monitor.__init__(self, "trace", basename, spans, f19_funcs)
+        self.mode = "decline"
+        self.declined_calls = 0
+        self.declined_codes = set()
+
+    def declines(self, name):
+        return sum(map(ord, name)) % 2 == 0
+
+    def trace_cb(self, frame, event, arg):
+        if not self.mine(frame):
+            return self.trace_cb
+        name = frame.f_code.co_name.rsplit(".", 1)[-1]
+        if event == "call":
+            self.events += 1
+            if self.declines(name):
+                self.declined_calls += 1
+                self.declined_codes.add(id(frame.f_code))
+                return None
+            self.stack.append((id(frame.f_code), name))
+            return self.trace_cb
+        if self.declines(name) and id(frame.f_code) in self.declined_codes:
+            self.events += 1
+            self._bad("event-for-a-scope-whose-tracing-was-declined", func=name, event=event)
+            return None
+        self.on(frame, event, arg)
+        return self.trace_cb
+
+    def on(self, frame, event, arg):
+        if event == "call":
+            return
+        Monitor.on(self, frame, event, arg)
+
+
 def make(mode, basename, spans, f19_funcs=()):
     if mode == "both":
         return DualMonitor(basename, spans, f19_funcs)
+    if mode == "decline":
+        return DeclineMonitor(basename, spans, f19_funcs)
     return Monitor(mode, basename, spans, f19_funcs)
